@@ -433,6 +433,59 @@ pub fn run(prop: &'static str, tier: &str) -> i32 {
                 }
             }
         }
+        // other objects used earlier on the thread, at another clock reading (a builder created, built, refused
+        // or failed; a plain or generic parser): the default rules judge against the clock as it reads when the
+        // token is parsed, in both directions of the clock change
+        {
+            use adapter::{BOp, ClaimSpec};
+            let key = key_for(*p);
+            let other = domains::key_pool(*p)[1].clone();
+            let seed = if p.is_local() { domains::seeds(*p)[0].clone() } else { vec![] };
+            let fine = adapter::core_issue(*p, &key.sk, &seed, "{\"data\":\"x\"}", None, None).ok().cloned().unwrap_or_default();
+            let prior: Vec<(&str, Box<dyn Fn()>)> = vec![
+                ("PasetoBuilder::default() built", Box::new(|| { let _ = adapter::with_rng_script(vec![], || adapter::build_history(*p, Layer::Prelude, &key.sk, &[BOp::Build])); })),
+                ("PasetoBuilder refused (duplicate)", Box::new(|| { let _ = adapter::with_rng_script(vec![], || adapter::build_history(*p, Layer::Prelude, &key.sk, &[BOp::Claim(ClaimSpec::auto("sub", json!("a"))), BOp::Claim(ClaimSpec::auto("sub", json!("b"))), BOp::Build])); })),
+                ("PasetoBuilder: build failed in the crypto step", Box::new(|| { let _ = adapter::with_rng_script(vec![], || adapter::build_history(*p, Layer::Prelude, &key.sk, &[BOp::BuildBadKey])); })),
+                ("GenericBuilder built", Box::new(|| { let _ = adapter::with_rng_script(vec![], || adapter::build_history(*p, Layer::Generic, &key.sk, &[BOp::Build])); })),
+                ("plain PasetoParser: wrong key", Box::new(|| { let _ = adapter::parse_history(*p, Layer::Prelude, false, &[other.pk.clone()], &[fine.clone()], &[POp::Parse(0, 0)]); })),
+                ("plain PasetoParser: accepted", Box::new(|| { let _ = adapter::parse_history(*p, Layer::Prelude, false, &[key.pk.clone()], &[fine.clone()], &[POp::Parse(0, 0)]); })),
+                ("generic parser: wrong key", Box::new(|| { let _ = adapter::parse_history(*p, Layer::Generic, false, &[other.pk.clone()], &[fine.clone()], &[POp::Parse(0, 0)]); })),
+                ("default parser: wrong key", Box::new(|| { let _ = adapter::parse_history(*p, Layer::Prelude, true, &[other.pk.clone()], &[fine.clone()], &[POp::Parse(0, 0)]); })),
+                ("default parser: junk", Box::new(|| { let _ = adapter::parse_history(*p, Layer::Prelude, true, &[key.pk.clone()], &["x.y.z".to_string()], &[POp::Parse(0, 0)]); })),
+            ];
+            for (name, f) in &prior {
+                for dt in [10 * S, -10 * S] {
+                    // the instant between the two clock readings
+                    let between = rfc3339::render(now + dt / 2, 0, 9, 'T', ZForm::Z).unwrap();
+                    let t2 = now + dt;
+                    // judged at t2: exp = between is in the past iff dt > 0; nbf = between is in the future iff dt < 0
+                    let want_ok = if claim == "exp" { dt < 0 } else { dt > 0 };
+                    let payload = payload_for(claim, &between);
+                    let Out::Ok(tok) = adapter::core_issue(*p, &key.sk, &seed, &payload, None, None) else { continue };
+                    adapter::set_clock(Some(time::OffsetDateTime::from_unix_timestamp_nanos(now).unwrap()));
+                    f();
+                    adapter::set_clock(Some(time::OffsetDateTime::from_unix_timestamp_nanos(t2).unwrap()));
+                    let ev = adapter::parse_history(*p, Layer::Prelude, true, &[key.pk.clone()], &[tok], &[POp::Parse(0, 0)]);
+                    adapter::freeze_default_clock();
+                    acc.executions += 1;
+                    acc.impl_calls += 2;
+                    acc.choice_points += 1;
+                    let got = matches!(ev.last(), Some(PEvent::Parsed(o, _)) if o.is_ok());
+                    if got == want_ok {
+                        acc.bump("after-other-objects:conforms");
+                        if want_ok {
+                            acc.controls_ok += 1;
+                        }
+                    } else {
+                        acc.violate(
+                            format!("{}|{}|after-other-objects|{}", prop, p.name(), if want_ok { "rejected-valid" } else { "accepted" }),
+                            format!("[{} at clock t1], then at clock t2 = t1 {:+} s the default parser parses a token with {} = t1 {:+} s: {}, expected {}", name, dt / S, claim, dt / 2 / S, if got { "accepted" } else { "rejected" }, if want_ok { "Ok" } else { "a rejection" }),
+                            json!({"time_case": TimeCase { proto: *p, now_ns: Some(t2.to_string()), payload }, "after_other_objects": name}),
+                        );
+                    }
+                }
+            }
+        }
         // free-running rows (real clock): the +-2 s / +-60 s margins of the statement
         for r in [-3652 * 86400 * S, -86400 * S, -3600 * S, -2 * S, -S, 5 * S, 60 * S, 3600 * S, 86400 * S, 3652 * 86400 * S] {
             for off in [0i64, 19800, -86340] {
